@@ -9,7 +9,7 @@ HOOK_FLAGS = ['-DMI_VERIF_HOOKS="%s"' % os.path.join(vlib.HARN, "hooks.h"), "-DM
 KINDS = {
     "C02": {"tfree": {"overlap", "content", "crash", "livelock", "fail"}},
     "C08": {"tfree": {"lost", "leak", "livelock"}},
-    "C09": {"exit": {"content", "overlap", "crash", "abandoned-leak", "leak", "livelock", "fail"}},
+    "C09": {"exit": {"content", "overlap", "crash", "abandoned-leak", "leak", "segment-leak", "livelock", "fail"}},
     "C10": {"heap": {"content", "overlap", "crash", "leak", "livelock", "fail"}},
     "C12": {"exit": {"abandoned-visit"}},
 }
@@ -63,12 +63,12 @@ def shrink(exe, mode, seed, nthreads, nops, kind, env):
     return best
 
 
-def run_conc(res, pid, seed, tier, envs=(None,)):
+def run_conc(res, pid, seed, tier, envs=(None,), nseeds_quick=36):
     exe = build(res)
     if exe is None:
         return
     big = tier == "thorough"
-    nseeds = 200 if big else 36
+    nseeds = 200 if big else nseeds_quick
     stats = collections.Counter()
     found = {}
     jobs = []
